@@ -77,6 +77,16 @@ def graph_of(inst):
         G[u][v]["flow"] = pynum(q, as_int)
     for v, q in inst.get("node_flow", []) or []:
         G.nodes[v]["flow"] = pynum(q, as_int)
+    if inst.get("numpy_numbers"):
+        # the observations as numpy scalars (what a graph built from an array or a data frame carries): int64 / float64
+        import numpy as np
+        conv = lambda x: np.int64(x) if isinstance(x, int) else np.float64(x)
+        for u, v, d in G.edges(data=True):
+            if "flow" in d:
+                d["flow"] = conv(d["flow"])
+        for v, d in G.nodes(data=True):
+            if "flow" in d:
+                d["flow"] = conv(d["flow"])
     return G
 
 
@@ -199,6 +209,8 @@ def gen_instance(rng, origin=None, cyclic=None, eps=None, small=False):
         inst["ends"] = [v for v in nodes if rng.random() < 0.3]
     if not cyclic and rng.random() < 0.35:
         inst["lambda"] = rng.choice(["1/2", "1"])
+    if rng.random() < 0.06:
+        inst["numpy_numbers"] = True
     return inst
 
 
@@ -731,6 +743,8 @@ def run(ctx):
             inst["ends"] = rng.sample(inst["nodes"], 1)
         run_case(ctx, inst, suite="K5.cyclic_starts_ends")
     reused_graph_cases(ctx, ctx.n(60, 600))
+    for it in range(ctx.n(12, 100)):
+        run_case(ctx, dict(gen_instance(rng, eps=None), numpy_numbers=True), suite="K5.numpy_numbers")
     for it in range(ctx.n(6, 40)):
         run_case(ctx, funnel_instance(rng), suite="K5.funnel")
     # ignored edges that do not carry the attribute, with and without epsilon
